@@ -338,6 +338,20 @@ def run(ctx):
     except Raised as e:
         got2 = f"raises {e.exc_name}"
     r2.check(got2 == ["/data/member/name"], "repeat placement[names sharing a prefix with the repeat]", "the repeat body holds the setvalue of its own question only", ddh.loc(), why_fail=f"{got2}")
+    # every section kind the builder can place inside a repeat holds questions: a plain group, the expanded form of a
+    # `begin loop` block (a GroupedSection whose type stays "loop"; its dump says "group"), groups nested in those
+    lsurvey, lnames, _lall = trees.build(ctx, ("data", [("r", "rep", [("q", "direct", {"default": "now()"}),
+                                                                      ("g", "grp", [("q", "in_group", {"default": "now()"}), ("g", "inner", [("q", "in_inner", {"default": "now()"})])]),
+                                                                      ("g", "lp", [("g", "lp_col", [("q", "in_loop", {"default": "now()"})])]),
+                                                                      ("r", "nested", [("q", "in_nested", {"default": "now()"})])])]))
+    lnames["lp"].attrs["type"] = "loop"
+    it2.reset([])
+    try:
+        got3 = sorted(n.attrs.get("ref").rsplit("/", 1)[-1] for n in it2.call_function(ddh, [lnames["rep"]], {"current": lnames["rep"], "survey": lsurvey}, None, ddh.node) if isinstance(n, NodeVal))
+    except Raised as e:
+        got3 = f"raises {e.exc_name}{e.exc_args}"
+    r2.check(got3 == ["direct", "in_group", "in_inner", "in_loop"], "repeat placement[group, nested group and expanded loop inside the repeat]",
+             "the repeat body holds the setvalue of every question below it that is not inside a nested repeat, whatever kind of section holds it", ddh.loc(), why_fail=f"{got3}")
     # the repeat control appends those nodes to the <repeat> element
     rx = rcls.methods["xml_control"]
     apps = [c for c in walk_own(rx.node) if isinstance(c, ast.Call) and call_name(c) == "appendChild" and norm(c.func.value) == "repeat_node"]
@@ -395,7 +409,42 @@ def run(ctx):
     r3.check(sv_map == {"${t}": [("c1", "1 + 1")], "${u}": [("c2", "now()")]}, "_save_trigger:setvalue map", "(target, expression) is recorded under the stripped triggering reference",
              st.loc(), why_fail=repr(sv_map))
     r3.check(sg_map == {"${t}": [("g1", "")]}, "_save_trigger:setgeopoint map", "background-geopoint rows go to the setgeopoint map with an empty value", st.loc(), why_fail=repr(sg_map))
+    # ... for every question the builder constructs, wherever it sits: top level, group, repeat, loop template (one copy per
+    # loop column), group inside a loop.  The builder is evaluated over a whole JSON form; element classes are stubs.
     cf = bcls.methods["create_survey_element_from_dict"]
+
+    def _stub_section(i, a, k, n):
+        return Obj(None, {"name": k.get("name"), "children": [], "add_child": lambda i2, a2, k2, n2: None, "add_children": lambda i2, a2, k2, n2: None,
+                          "setvalues_by_triggering_ref": None, "setgeopoint_by_triggering_ref": None}, name="sec")
+
+    built = []
+    bh = {"fnname:_create_question_from_dict": lambda i, a, k, n: (built.append(k.get("d", a[0] if a else None)), Obj(None, {"name": "q"}, name="q"))[1],
+          "new:GroupedSection": _stub_section, "new:RepeatingSection": _stub_section, "new:Survey": _stub_section}
+
+    def _trig(nm, t="${t}", typ="calculate"):
+        d_ = {"type": typ, "name": nm, "trigger": t}
+        if typ != "background-geopoint":
+            d_["bind"] = {"calculate": f"v_{nm}"}
+        return d_
+
+    FORMS = {
+        "top level and group": ([_trig("a"), {"type": "group", "name": "g", "children": [_trig("b"), {"type": "text", "name": "n"}]}], {"${t}": [("a", "v_a"), ("b", "v_b")]}, {}),
+        "repeat inside a group": ([{"type": "group", "name": "g", "children": [{"type": "repeat", "name": "r", "children": [_trig("a", "${u}"), _trig("p", "${u}", "background-geopoint")]}]}], {"${u}": [("a", "v_a")]}, {"${u}": [("p", "")]}),
+        "loop template": ([{"type": "loop", "name": "lp", "columns": [{"name": "x", "label": "X"}, {"name": "y", "label": "Y"}], "children": [_trig("c_%(name)s")]}], {"${t}": [("c_x", "v_c_x"), ("c_y", "v_c_y")]}, {}),
+        "group inside a loop template": ([{"type": "loop", "name": "lp", "columns": [{"name": "x", "label": "X"}], "children": [{"type": "group", "name": "g_%(name)s", "children": [_trig("d")]}]}], {"${t}": [("d", "v_d")]}, {}),
+    }
+    for fname, (kids, want_sv, want_sg) in FORMS.items():
+        itf = ctx.interp("C10.R3", hooks=bh, inline=lambda fi: True)
+        itf.reset([])
+        bb = Obj(bcls, {}, name="builder")
+        itf.call_function(bcls.methods["__init__"], [bb], {}, None, None)
+        try:
+            itf.call_function(cf, [bb], {"d": {"type": "survey", "name": "data", "children": kids}}, None, cf.node)
+            got_sv, got_sg = dict(bb.attrs.get("setvalues_by_triggering_ref", {})), dict(bb.attrs.get("setgeopoint_by_triggering_ref", {}))
+        except Raised as e:
+            got_sv, got_sg = f"raises {e.exc_name}{e.exc_args}", None
+        r3.check(got_sv == want_sv and got_sg == want_sg, f"builder:triggers recorded[{fname}]", "every constructed question with a trigger is in the builder's maps, once per constructed copy", cf.loc(),
+                 why_fail=f"setvalue map {got_sv!r}, setgeopoint map {got_sg!r}")
     hands = [x for x in walk_own(cf.node) if isinstance(x, ast.Assign) and isinstance(x.targets[0], ast.Attribute) and x.targets[0].attr in ("setvalues_by_triggering_ref", "setgeopoint_by_triggering_ref")]
     r3.check(len(hands) == 2 and all(x.targets[0].attr == x.value.attr for x in hands), "builder:hand-over", "each map is handed to the survey under its own name", cf.loc())
     # nesting in the triggering question's control
